@@ -896,7 +896,7 @@ class GeoNetwork(SpatialNetwork):
 
     @staticmethod
     def latlon2cartesian(lat, lon):
-        lat *= np.pi/180
-        lon *= np.pi/180
+        lat = lat * np.pi/180
+        lon = lon * np.pi/180
         coslat = np.cos(lat)
         return [coslat * np.sin(lon), coslat * np.cos(lon), np.sin(lat)]
